@@ -1621,6 +1621,74 @@ pub fn fam_long_strings(cfg: &Config, flags: Flags, max: usize) -> (Report, Vec<
 	})
 }
 
+/// Uninterrupted runs of `\\uXXXX` escapes (as an ASCII-only serializer emits
+/// them) of every length up to `max`, with a surrogate pair, a lone high or a
+/// lone low surrogate at every position of the run; in value and key position.
+pub fn fam_escape_runs(cfg: &Config, flags: Flags, max: usize) -> (Report, Vec<u8>) {
+	let name = "runs-of-unicode-escapes-with-a-surrogate-at-every-position";
+	run_family(cfg, flags, name, 16, &move |i, mon| {
+		let bs = '\\';
+		let bmp = ["00e9", "20AC", "0041", "fffd", "000a", "D7FF", "e000"];
+		let mut n = 0u64;
+		let mut run_len = i + 1;
+		let mut doc = String::new();
+		while run_len <= max {
+			for at in 0..run_len {
+				for kind in 0..4usize {
+					// 0: pair at `at`; 1: lone high; 2: lone low; 3: pair followed by a raw control character
+					let mut body = String::new();
+					let mut k = 0usize;
+					while k < run_len {
+						if k == at {
+							match kind {
+								0 | 3 => {
+									body.push_str(&format!("{}uD83D{}uDE00", bs, bs));
+									k += 1;
+								}
+								1 => body.push_str(&format!("{}uDBFF", bs)),
+								_ => body.push_str(&format!("{}udc00", bs)),
+							}
+							if kind == 3 {
+								body.push('\u{1f}');
+							}
+						} else {
+							body.push(bs);
+							body.push('u');
+							body.push_str(bmp[(k * 3 + run_len) % bmp.len()]);
+						}
+						k += 1;
+					}
+					doc.clear();
+					match (at + kind) % 3 {
+						0 => {
+							doc.push('"');
+							doc.push_str(&body);
+							doc.push('"');
+						}
+						1 => {
+							doc.push_str("{\"");
+							doc.push_str(&body);
+							doc.push_str("\":[\"");
+							doc.push_str(&body);
+							doc.push_str("\"]}");
+						}
+						_ => {
+							doc.push_str("[\"x");
+							doc.push_str(&body);
+							doc.push_str("y\"]");
+						}
+					}
+					mon.input(name, doc.as_bytes());
+					n += 1;
+				}
+			}
+			run_len += 16;
+		}
+		mon.rep.distinct_by_construction(n);
+		mon.rep.max("longest_escape_run", max as u64);
+	})
+}
+
 /// Long lexemes other than strings: digit runs of every length in each part of
 /// a number, blank runs of every length between tokens, long runs of one-token
 /// items; each also followed by something ill-formed.
